@@ -177,12 +177,13 @@ class Average(Factory, Container):
         q = q[selection]
         weights = weights[selection]
 
-        self.entries += float(weights.sum())
+        cb = float(weights.sum())
+        self.entries += cb
         ca_plus_cb = self.entries
 
         if math.isinf(ca_plus_cb):
             self.mean = float("nan")
-        elif ca_plus_cb > 0.0:
+        elif cb > 0.0:
             mb = numpy.average(q, weights=weights)
             self.mean = float((ca * ma + (ca_plus_cb - ca) * mb) / ca_plus_cb)
 
